@@ -98,6 +98,22 @@ ChainDrift(e) ==
   \cup (IF e.mk = "ok" /\ e.out.k = "ok" /\ e.mview # e.out.view THEN {<<"chain-view", e.id, 0>>} ELSE {})
   \cup (IF e.out.k = "ok" /\ e.ids # e.oids THEN {<<"chain-identity-pattern", e.id, 0>>} ELSE {})
 
+(* ---- histories of construction / hashing / in-place mutation: e.acts, e.nw, e.eq (observed matrix at the   *)
+(*      end of the history), e.hs / e.h (hash status / class of every live object at the end) ---- *)
+HistClauses(e) ==
+  LET stt == HFold(HInit(e.nw), e.acts, 1)
+      n == Len(stt.objs)
+      T(i, j) == e.eq[i][j] = "T"
+  IN   {<<"history-eq-raises", e.id, i, j>> : <<i, j>> \in {p \in (1..n) \X (1..n) : e.eq[p[1]][p[2]] \notin {"T", "F"}}}
+  \cup {<<"history-reflexive", e.id, i, i>> : i \in {i \in 1..n : ~T(i, i)}}
+  \cup {<<"history-symmetric", e.id, p[1], p[2]>> : p \in {p \in (1..n) \X (1..n) : p[1] < p[2] /\ T(p[1], p[2]) # T(p[2], p[1])}}
+  \cup {<<"history-equal-objects-unequal-hash", e.id, p[1], p[2]>> :
+          p \in {p \in (1..n) \X (1..n) : /\ p[1] < p[2] /\ T(p[1], p[2])
+                                           /\ e.hs[p[1]] = "ok" /\ e.hs[p[2]] = "ok" /\ e.h[p[1]] # e.h[p[2]]}}
+  \cup {<<"history-differs-from-reference", e.id, p[1], p[2]>> :
+          p \in {p \in (1..n) \X (1..n) : T(p[1], p[2]) # HEq(stt, stt.objs[p[1]], stt.objs[p[2]])}}
+  \cup (IF Len(e.eq) # n THEN {<<"history-object-count", e.id, 0, 0>>} ELSE {})
+
 (* ---- element indexing commutes with asarray: e.out in equal | differ | raise-elem | raise-array | raise-both ---- *)
 IndexClauses(e) ==
   IF e.out \in {"equal", "raise-both"} THEN {} ELSE {<<"indexing-" \o e.out, e.id, 0, 0>>}
@@ -108,6 +124,7 @@ Clauses(e) ==
     [] e.ev = "derived" -> DerivedClauses(e)
     [] e.ev = "index" -> IndexClauses(e)
     [] e.ev = "chain" -> ChainClauses(e)
+    [] e.ev = "hist" -> HistClauses(e)
 
 \* family features of a pair of objects (they name the cell in the signature of a finding); none is left on the
 \* current tree, the classes of the two objects identify the family
